@@ -1,0 +1,14 @@
+// Package vtrace is a verification-only event recorder. It does nothing unless the
+// module is built with the build tag "verif": without the tag On is the constant
+// false, every hook site `if vtrace.On { ... }` is dead code and Emit is empty.
+//
+// With the tag, a call that wants to be traced runs between Begin and End on its own
+// goroutine; the instrumented code appends events to that goroutine's buffer.
+// Hooks only read the state they report.
+package vtrace
+
+// Event is one recorded step: a name and alternating key/value pairs.
+type Event struct {
+	Name string
+	KV   []interface{}
+}
